@@ -6,7 +6,7 @@ from .sandbox import MODEL_ROOT
 
 R = MODEL_ROOT
 NAMES = [b"f", b"a b", b"x.txt", b"-dash", b"new\nline", b"per%cent", b"caf\xc3\xa9", b"\xff\xfe", b"q?*[", b".hidden",
-         b"foo", b"foo.trashinfo", b"tab\there", b"a=b", b"\xe2\x82\xac", b"UP", b"up", b"~", b"#h", b"+p", b"d1", b"d2", b"...", b"....", b"cafe\xcc\x81", b"x.trashinfo.trashinfo"]
+         b"foo", b"foo.trashinfo", b"tab\there", b"a=b", b"\xe2\x82\xac", b"UP", b"up", b"~", b"#h", b"+p", b"d1", b"d2", b"...", b"....", b"cafe\xcc\x81", b"x.trashinfo.trashinfo", b"@f", b"@nope"]
 SAFE_NAMES = [b"f", b"foo", b"x.txt", b"UP", b"d1", b"d2", b"a b", b".hidden"]
 DOT_T = b".Trash"
 
@@ -84,7 +84,7 @@ def make_entry(rng, w, d, name, kind=None, mounts=()):
     elif kind == "fifo":
         w.fifo(p, rng.choice([0o644, 0o600]))
     elif kind == "tree":
-        w.dir(p, rng.choice([0o755, 0o700]))
+        w.dir(p, rng.choice([0o755, 0o700, 0o555, 0o2555]))
         w.file(p + b"/in1", b"one")
         if rng.random() < 0.6:
             w.file(p + b"/sub/in2", b"two", 0o600)
@@ -186,6 +186,7 @@ HOME_NAMES = [b"u", b"u", b"u", b"jo(e", b"a[b", b"c+d", b"info", b"my info", b"
 def gen_put_world(rng, profile="mixed"):
     w = W()
     uid = rng.choice([0, 1000, 1000, 65534])
+    randints = [rng.randint(0, 65535) for _ in range(16)]
     home = w.dir(R + b"/home/" + rng.choice(HOME_NAMES))
     vols = volume_layout(rng, w, uid, profile)
     env = {"HOME": home}
@@ -260,6 +261,9 @@ def gen_put_world(rng, profile="mixed"):
         if r < 0.20 and len(vols) > 1:
             mp = rng.choice(vols[1:])
             w.file(mp + b"/on-volume", b"v")
+            if rng.random() < 0.6:
+                # a top directory nobody may write to: an argument that cannot be moved keeps its mode too
+                w.nodes[mp]["mode"] = rng.choice([0o555, 0o500])      # (no setgid: its inheritance is not modelled)
             args.append(rng.choice([mp, mp + b"/", relpath(mp, cwd)]))
             meta.append({"class": "mountpoint"})
             continue
@@ -360,6 +364,7 @@ def gen_put_world(rng, profile="mixed"):
             w.dir(tdir + b"/files", 0o700)
             w.dir(tdir + b"/info", 0o700)
             many = rng.choice([0, 1, 3, 3, 101, 120]) if rng.random() < 0.6 else 0
+            first_plain = True
             for m_ in meta:
                 if "entry" not in m_:
                     continue
@@ -390,6 +395,18 @@ def gen_put_world(rng, profile="mixed"):
                         w.link(tdir + b"/files/" + nm + sfx, b"nowhere")
                     if what == "payload-dir":
                         w.file(tdir + b"/files/" + nm + sfx + b"/inner", b"old dir")
+                if many > 100 and first_plain and rng.random() < 0.8:
+                    # beyond 100 the suffix is a NEW random number at every asking: the first one drawn is taken, the
+                    # second one free (that is the name to take), and at the third one a payload without info waits -
+                    # whoever asks twice for "the name of this attempt" probes one name and claims another
+                    first_plain = False
+                    r0, r1, r2 = (b"_%d" % x for x in randints[:3])
+                    if len({r0, r1, r2}) == 3 and all(tdir + b"/files/" + nm + x not in w.nodes and tdir + b"/info/" + nm + x + b".trashinfo" not in w.nodes for x in (r0, r1, r2)):
+                        w.file(tdir + b"/files/" + nm + r0, b"taken at the first draw")
+                        if rng.random() < 0.5:
+                            w.file(tdir + b"/files/" + nm + r2, b"orphan at the third draw: must survive")
+                        else:
+                            w.file(tdir + b"/files/" + nm + r2 + b"/precious", b"orphan directory at the third draw: must survive")
     td0 = opts.get("trashDir")
     if td0 is not None and td0.startswith(R + b"/") and rng.random() < (0.7 if profile == "collide" else 0.3):
         # --trash-dir spelled through a symbolic link followed by '..': the kernel follows the link before going up; a
@@ -431,7 +448,7 @@ def gen_put_world(rng, profile="mixed"):
         replies = [rng.choice([b"y", b"Y", b"yes", b"n", b"", b"x", b"N", b" y"]) for _ in range(rng.randint(0, nargs))]
         stdin = b"".join(r + b"\n" for r in replies)
     world = w.world(env=env, uid=uid, cwd=cwd, cmd="put", args=args, opts=opts, argv=put_argv(opts, args),
-                    stdin=stdin, randints=[rng.randint(0, 65535) for _ in range(16)], meta=meta)
+                    stdin=stdin, randints=randints, meta=meta)
     return world
 
 
